@@ -10,7 +10,7 @@ import itertools
 import z3
 from .. import s1, tdmsmodel as tm
 from ..sx import explore, PathAbort
-from . import c04
+from . import c04, kstep
 
 A, B = c04.A, c04.B
 KINDS = ['full', 'full2', 'same', 'nodata', 'unlisted']
@@ -22,7 +22,11 @@ MANIFEST = dict(
          "length) / matches-previous / no-data / unlisted, with and without kTocNewObjList and kTocMetaData, 1-2 chunks, property "
          "updates; TdmsFile.read and TdmsFile.open (index cache) are compared with the oracle's logical content, the reader's "
          "per-segment object state (has_data, length, type of every earlier segment: frame condition against retroactive "
-         "aliasing) with the oracle's, and the three forbidden encodings must raise.",
+         "aliasing) with the oracle's, and the three forbidden encodings must raise.  Inductive step: the real "
+         "_read_segment_metadata/_update_object_metadata run on ONE solver-chosen segment from an ARBITRARY reader state satisfying a "
+         "stated representation invariant (most-recent objects per path undefined/defined with solver-variable counts, any previous "
+         "object list, solver-variable totals): the resulting state equals the format's rules, nothing earlier changes, and the "
+         "invariant holds again - which, with the base case, covers histories of any length over <= 2 (thorough 3) paths.",
     note="Trusted: z3 (here mostly enumerating structure), sx engine, the oracle's independent statement of the TDMS inheritance "
          "rules in vf/tdmsmodel.py. Bounds: 3 segments, 2 channels (+1 in the order-sensitivity family).",
     technique="bounded symbolic execution (solver-driven case split over encodings) of the real code + oracle comparison; replay gate",
@@ -33,16 +37,18 @@ META = dict(
     functions=['tdms_segment.TdmsSegment.read_segment_objects', 'tdms_segment.TdmsSegment._update_existing_object',
                'tdms_segment.TdmsSegment._reuse_previous_object', 'tdms_segment.TdmsSegment._reuse_previous_segment_metadata',
                'tdms_segment.SegmentIndexCache.get_index', 'tdms_segment.ObjectListKey', 'reader.TdmsReader._update_object_metadata',
-               'reader._update_object_data_type', 'reader.TdmsReader._build_index'],
-    bounds=dict(quick='all 2-segment sequences; 3-segment sequences whose middle segment is one of 14 configurations; 2 channels '
+               'reader._update_object_data_type', 'reader.TdmsReader._build_index', 'reader.TdmsReader._read_segment_metadata',
+               'reader.TdmsReader._read_lead_in', 'tdms_segment.TdmsSegmentObject.read_raw_data_index', 'tdms_segment.TdmsSegment._calculate_chunks'],
+    bounds=dict(quick='inductive step: 2 paths x 4 pre-states each x any previous list x 5 header kinds x list orders x 0-2 chunks, counts/'
+                      'totals/offsets unbounded solver integers (thorough: also 3 paths x 4 header kinds); all 2-segment sequences; 3-segment sequences whose middle segment is one of 14 configurations; 2 channels '
                       '(int32, int16), 1-2 values, 1-2 chunks; plus the object-order family (same objects listed in a different '
                       'order in a new-object-list segment, 3 channels)',
                 thorough='all 3-segment sequences'),
-    outside=['more than 3 segments / 3 channels', 'DAQmx objects', 'interleaved layout (C01)'],
+    outside=['more than 3 segments in the file-level family (the inductive step covers any number for the metadata state)', 'more than 3 channels', 'DAQmx objects', 'interleaved layout (C01)'],
     stubs=c04.META['stubs'],
     assumptions=['inheritance rules as stated in the TDMS file format description (oracle)'],
     buckets=dict(all=['valid-encoding', 'forbidden-rejected', 'no-metadata-segment', 'carried-object-list', 'same-after-nodata',
-                      'restated-identical-index', 'lazy-index-cache', 'order-family']),
+                      'restated-identical-index', 'lazy-index-cache', 'order-family'] + kstep.BUCKETS),
     replays_per_signature=3,
     validate_samples=10,
 )
@@ -113,7 +119,7 @@ def tasks(tier, seed):
                 ts.append(dict(kind='seq', S=3, c0=i0, mid=m))
     ts.append(dict(kind='order'))
     ts.append(dict(kind='typechange'))
-    return ts
+    return kstep.tasks(tier) + ts
 
 
 def segment_state_mismatch(tf, enc):
@@ -215,6 +221,9 @@ def _shape_of(task, choose):
 
 
 def run_task(task):
+    if task['kind'] == 'step':
+        return kstep.run_task(task)
+
     def fn(ctx):
         shape = _shape_of(task, ctx.choice)
         ctx.info['shape'] = str([(s.get('meta', True), s.get('newobj', True), [(o[0][-2], o[1], o[3]) for o in s['objs']], s['nchunks']) for s in shape])
@@ -249,6 +258,8 @@ def run_task(task):
 
 
 def signature(c):
+    if c['task']['kind'] == 'step':
+        return kstep.signature('C02', c)
     what = c.get('what', '')
     if what == 'exception':
         what = 'exception:%s' % c.get('exc')
@@ -257,6 +268,8 @@ def signature(c):
 
 def replay(art):
     task, inp = art['task'], art['inputs']
+    if task['kind'] == 'step':
+        return kstep.replay('C02', art)
     shape = _shape_of(task, lambda name, n: inp.get(name, 0))
     out = []
 
